@@ -1,0 +1,35 @@
+//! Verification hooks for the address-lookup registry (only compiled with `--cfg iroh_verif`).
+//!
+//! A harness thread registers itself as a named *actor*; the pause points placed between the
+//! sub-steps of `AddressLookupServices::{add_boxed, publish}` then become the gates
+//! `<actor>.<point>` of `iroh_dns::verif` (held only if the harness armed them), and passing
+//! a gate is recorded as a `passed` event.  Threads that are not registered are unaffected.
+#![allow(missing_docs)]
+
+use std::cell::RefCell;
+
+use crate::address_lookup::{AddressLookupServices, EndpointData};
+
+thread_local! {
+    static ACTOR: RefCell<Option<String>> = const { RefCell::new(None) };
+}
+
+/// Registers (or, with `None`, unregisters) the calling thread as an actor.
+pub fn set_actor(name: Option<&str>) {
+    ACTOR.with(|a| *a.borrow_mut() = name.map(|s| s.to_string()));
+}
+
+/// Pause point `<actor>.<point>`; no-op on threads without an actor name.
+pub(crate) fn pause(point: &str) {
+    let Some(actor) = ACTOR.with(|a| a.borrow().clone()) else {
+        return;
+    };
+    let label = format!("{actor}.{point}");
+    iroh_dns::verif::pause(&label);
+    iroh_dns::verif::event("passed", &[("gate", label)]);
+}
+
+/// The crate-private `AddressLookupServices::publish`.
+pub fn publish(services: &AddressLookupServices, data: &EndpointData) {
+    services.publish(data)
+}
